@@ -36,7 +36,7 @@ U = {
     "obj_eq": z3.Function("py_obj_eq", IntS, IntS, BoolS),
 }
 UF_DOC = {
-    "py_lower": "str.lower (uninterpreted; value on literals from CPython; idempotent)",
+    "py_lower": "str.lower (uninterpreted; value on literals from CPython; idempotent; identity on [0-9]+)",
     "py_strip": "str.strip() (uninterpreted; idempotent; identity when both end characters are literal non-whitespace; value on literals from CPython)",
     "py_rstrip": "str.rstrip() (uninterpreted; value on literals from CPython)",
     "py_isdigit": "str.isdigit (uninterpreted; with isascii it is [0-9]+)",
@@ -138,6 +138,7 @@ def _facts_for(name, t):
         else:
             out.append(U["lower"](t) == t)
             out.append(z3.Implies(z3.Length(a) == 0, t == z3.StringVal("")))
+            out.append(z3.Implies(z3.InRe(a, DIGITS), t == a))      # ASCII digit strings have no cased characters
     elif name == "py_strip":
         if lit is not None:
             out.append(t == z3.StringVal(lit.strip()))
@@ -369,6 +370,8 @@ def eval_module_const(eng, node, mod):
     for (m, n), v in eng.repo.consts.items():
         if v is node:
             key = (m, n)
+    if key and not getattr(eng, "const_dump", None) and hasattr(eng, "_const_dump_loader"):
+        eng.const_dump = eng._const_dump_loader()
     if key and key in getattr(eng, "const_dump", {}):
         return eng.const_dump[key]
     raise Exception(f"module constant {key} is not a literal and is not in the constants dump")
@@ -1158,7 +1161,17 @@ def _nlines(eng, e, st, fr, k):
     return eng.ev(e.args[0], st, fr, lambda s, v: k(s, SInt(U["nlines"](v.t))))
 
 
-SPECIAL_FORMS = {"nlines": _nlines, "joined": _joined, "truthy": _truthy, "isint": _isint, "isnone": _isnone,
+def _modconst(eng, e, st, fr, k):
+    """modconst('module', 'NAME'): the module-level constant of the repository (re-read every run)"""
+    mod, name = e.args[0].value, e.args[1].value
+    node = eng.repo.consts.get((mod, name))
+    if node is None:
+        from .symex import EngineError
+        raise EngineError(f"module constant {mod}.{name} not found")
+    return k(st, eng.const_value(node, mod, st, fr))
+
+
+SPECIAL_FORMS = {"modconst": _modconst, "nlines": _nlines, "joined": _joined, "truthy": _truthy, "isint": _isint, "isnone": _isnone,
                  "dict_key_at": _dict_key_at, "str_of": _str_of, "forall": _quant("forall"), "exists": _quant("exists"), "implies": _implies, "old": _old,
                  "fresh": _fresh, "allocated": _allocated, "unchanged": _unchanged, "isstr": _isstr,
                  "sval": _sval, "ival": _ival, "cls_is": _cls_is, "same": _same_obj, "as_ref": _as_ref}
